@@ -22,7 +22,7 @@ func init() {
 		Title:       "A session becomes authenticated only through a verified OpenID login",
 		DesignRef:   "DESIGN.md §3 C13",
 		Technique:   "checked must-pass-through chain on OIDC.HandleCallback (edge-cut reachability, go/ssa) + who-may-call inventory of SetAuthenticated/SaveSessionIdentity + value origin of the state key + sibling agreement of the identity gob mirror",
-		LevelText:   "Static: in HandleCallback, marking the identity authenticated and saving it are reachable only over: state found in the gateway's own state store, code exchange succeeded, id_token present, ID token verified, claims decoded, and a non-empty user name taken from those verified claims (which is the name stored). Only the callback, the Basic/NTLM middleware and the SPNEGO transposition ever set the authenticated flag; only the callback and the fresh-session path of EnrichContext save identities. State keys are 16 bytes from crypto/rand with a checked error, stored with the default expiry of a store built with a constant <= 2 min. The verifier configuration sets ClientID and none of the Skip* options. Both session stores get an authentication and an encryption key behind len >= 32 guards. Marshal and Unmarshal of the identity copy the same set of fields both ways.",
+		LevelText:   "Static: in HandleCallback, marking the identity authenticated and saving it are reachable only over: state found in the gateway's own state store, code exchange succeeded, id_token present, ID token verified, claims decoded, and a non-empty user name taken from those verified claims (which is the name stored). Only the callback, the Basic/NTLM middleware and the SPNEGO transposition ever set the authenticated flag; only the callback and the fresh-session path of EnrichContext save identities. State keys are 16 bytes from crypto/rand with a checked error, stored with the default expiry of a store built with a constant <= 2 min. The verifier configuration sets ClientID and none of the Skip* options. Both session stores get an authentication and an encryption key behind len >= 32 guards. Marshal and Unmarshal of the identity copy the same set of fields both ways. The encoded identity handed to the session store lives in storage of the Marshal call (no package-level or pooled encode buffer that another request can overwrite before the session is sealed).",
 		LevelNote:   "Trusted: go-oidc Verify (signature, issuer, audience, expiry), oauth2 Exchange, gorilla securecookie/sessions (MAC + encryption of cookie values), encoding/gob. Not decided: cookie mutation resistance as such (library).",
 		Explanation: "C13/callback-chain deletes, for each required step, the CFG edges on which that step succeeded and demands that SetAuthenticated(true) and SaveSessionIdentity become unreachable; argument shapes tie each step to the previous one's result. C13/who-authenticates inventories all call sites. C13/state follows the state key to crypto/rand. C13/verifier-config reads the oidc.Config literal. C13/store checks the key guards in InitStore. C13/mirror compares the field maps of Marshal and Unmarshal.",
 		Assumptions: []string{"go-oidc's IDTokenVerifier.Verify checks signature, issuer, audience (ClientID) and expiry unless a Skip* option is set"},
